@@ -100,13 +100,19 @@ def explore(ll, entry='harness_main', workers=16, max_paths=200000, time_limit=6
     killed = False
     try:
         while True:
+            no_children = False
             try:
                 while True:
                     pid, _ = os.waitpid(-1, os.WNOHANG)
                     if pid == 0: break
-            except ChildProcessError: pass
+            except ChildProcessError: no_children = True
             absorb()
             if forker.outstanding.value <= 0: break
+            if no_children:
+                # every explorer process is gone although some never reported back (killed, crashed hard): never a success
+                time.sleep(0.2); absorb()
+                if forker.outstanding.value > 0: out['engine_errors'].append('%d explorer process(es) died without reporting (out of memory / killed?)' % forker.outstanding.value)
+                break
             if out['engine_errors'] or (stop_on_inconclusive and out['inconclusive']) or out['paths'] >= max_paths or time.time() > deadline + 30:
                 killed = True; break
             time.sleep(0.02)
